@@ -425,10 +425,21 @@ def _check_beta(run: Run, ctx0, m, cls, vc: FuncInfo) -> None:
                 run.ok("C02.R3a", vc, "argument visited inside a frame whose keys are fresh names", show(t)[:80])
                 continue
             run.check(t == body_t, "C02.R3a", vc, stmt_of(c), "inside the callee's frame only the lambda body is visited", f"{show(t)[:80]} is visited inside the callee's frame: if it is (part of) an argument, names in it that coincide with parameters already defined are resolved against the callee's bindings instead of the caller's", "arg_asts = [self.visit(a) for a in call_node.args] before `with stack_frame`", show(t))
+    def _through_pairs(t):
+        """iterating (e(x) for x in xs) gives e(x): a loop variable that ranges over an unfiltered generator / list of
+        pairs built for the purpose is read as the pair it stands for"""
+        if isinstance(t, tuple) and t:
+            t = tuple(_through_pairs(x) for x in t)
+            if len(t) == 2 and t[0] == "elem" and isinstance(t[1], tuple) and len(t[1]) == 4 and t[1][0] == "comp" and len(t[1][3]) == 1 and not t[1][3][0][1]:
+                return t[1][2]
+            if len(t) == 3 and t[0] == "index" and isinstance(t[1], tuple) and len(t[1]) == 2 and t[1][0] == "tuple" and isinstance(t[2], int) and 0 <= t[2] < len(t[1][1]):
+                return t[1][1][t[2]]
+        return t
+
     for d in defines:
         if len(d.args) == 2:
-            vt = d.args[1]
-            nt = d.args[0]
+            vt = _through_pairs(d.args[1])
+            nt = _through_pairs(d.args[0])
             params_t = ("attr", ("attr", ("attr", nodep, "func"), "args"), "args")
             args_t = ("attr", nodep, "args")
             ok_n = nt[0] == "attr" and nt[2] == "arg" and contains(nt, lambda s: s == params_t)
@@ -458,7 +469,13 @@ def _check_beta(run: Run, ctx0, m, cls, vc: FuncInfo) -> None:
     for s, n in fa.returns():
         t = strip_sites(fa.term_of(s.value, n)) if s.value is not None else ("const", None)
         if t == ("visit", ("attr", ("attr", nodep, "func"), "body")):
-            run.check(id(s) in inside, "C02.R3b", vc, s, "the body is visited inside the frame", "the lambda body is visited outside the frame that binds its parameters")
+            where = s
+            if isinstance(s.value, ast.Name):
+                # result = self.visit(body) inside the frame, `return result` once the frame is gone: the visit counts
+                defs_r = [x for x in own_nodes(vc) if isinstance(x, ast.Assign) and len(x.targets) == 1 and isinstance(x.targets[0], ast.Name) and x.targets[0].id == s.value.id]
+                if len(defs_r) == 1:
+                    where = defs_r[0]
+            run.check(id(where) in inside, "C02.R3b", vc, s, "the body is visited inside the frame", "the lambda body is visited outside the frame that binds its parameters")
             # R3c guard
             _check_reduction_guard(run, ctx, m, vc, fa, s, nodep)
 
